@@ -153,15 +153,17 @@ def gen_obj_case(seed, idx, sigs, cls_name=None, n_points=60):
     # wrong dimension
     want = len(DOMAINS[cls_name]) if DOMAINS[cls_name] else None
     if want is not None:
-        for bad in ([0.1] * (want + 1), []):
+        grid = [[0.1 + 0.05 * j_] * want for j_ in range(want + 1)]         # (want+1) points of the right dimension, stacked
+        for bad in ([0.1] * (want + 1), [], grid, np.array(grid)):
             try:
-                obj.f(list(bad))
-                case.fail("C17", "wrong-dimension-accepted", f"{len(bad)} coordinates accepted", cls=cls_name)
+                obj.f(bad if isinstance(bad, np.ndarray) else list(bad))
+                case.fail("C17", "wrong-dimension-accepted", f"an argument of {len(bad)} entries ({type(bad).__name__}) accepted", cls=cls_name)
             except ValueError:
                 if sig is not None:
                     ps = [float(getattr(obj, a)) for a in sig["params"]]
-                    case.op(f"O.eval {cls_name} {len(ps)} " + " ".join(fbits(x) for x in ps) + f" {len(bad)} " + " ".join(fbits(x) for x in bad),
-                            "ERR ValueError")
+                    if bad is not grid and not isinstance(bad, np.ndarray):
+                        case.op(f"O.eval {cls_name} {len(ps)} " + " ".join(fbits(x) for x in ps) + f" {len(bad)} " + " ".join(fbits(x) for x in bad),
+                                "ERR ValueError")
             except Exception as e:
                 case.fail("C17", "wrong-dimension-other-exception", f"{type(e).__name__}", cls=cls_name)
     return case
